@@ -44,6 +44,7 @@ type Contract struct {
 	InlineOnly bool     // never use this contract at call sites (function is inlined)
 	Assigns    []*Clause // locations this function may write: x[*], p.f, p.*, result[*] ...
 	HasAssigns bool
+	Abstracts  string // name of an opaque spec function f: callers may assume result == f(args); justified by a syntactic purity check of the body
 	IntMode    bool // verified with mathematical integers + no-overflow obligations
 	Reveal     map[string]bool // opaque spec functions whose definitions are visible in this contract's obligations
 	NoPanic    bool // callers may assume the function does not panic under its preconditions (always true once verified)
@@ -264,6 +265,9 @@ func (e *Env) loadContractFile(path string) error {
 				}
 			case "kinds":
 				cur.Kinds = append(cur.Kinds, strings.Fields(strings.ReplaceAll(rest, ",", " "))...)
+				last = nil
+			case "abstracts":
+				cur.Abstracts = strings.TrimSpace(rest)
 				last = nil
 			case "mode":
 				on := strings.TrimSpace(rest) == "int"
